@@ -52,7 +52,7 @@ pub fn c02(ctx: &Ctx) -> (CheckMeta, Outcome) {
                     for img in images(e, nbits, seed, thorough) {
                         let model = RdModel { bits: Bits::from_bytes(&img.bytes, e), e, zx: backend == "memzx", limit: nbits + 160, tables_ok: diag };
                         let rd = make_reader(e, kind, backend, "", &img.bytes);
-                        let run = RdRun { property: "C02", model: &model, image: &img.bytes, alphabet: &alphabet, max_states: 40_000, check_counter: false };
+                        let run = RdRun { property: "C02", model: &model, image: &img.bytes, alphabet: &alphabet, max_states: 40_000, check_counter: false, max_depth: 0 };
                         out.merge(explore(&run, rd));
                     }
                     out
@@ -60,11 +60,12 @@ pub fn c02(ctx: &Ctx) -> (CheckMeta, Outcome) {
             }
         }
     }
-    let out = run_all(tasks, threads());
+    let mut out = run_all(tasks, threads());
+    out.merge(c02_long_zero_extension(ctx));
     let meta = CheckMeta {
         property: "C02".into(),
         level: "model_checking".into(),
-        rule: "breadth-first exploration to the fixpoint of the real reader object (exact Debug-string state identity) for every (endianness, reader kind, backend, image); alphabet read_bits 0..=64, peek 1..=max twice, skip 0..=2W+1,3W,3W+1, read_unary; every transition compared with the bit-vector model (value, advance, bit_pos); distinct_nontrivial counts transitions that start in a state reached through at least one earlier operation".into(),
+        rule: "breadth-first exploration to the fixpoint of the real reader object (exact Debug-string state identity) for every (endianness, reader kind, backend, image); alphabet read_bits 0..=64, peek 1..=max twice, skip 0..=2W+1,3W,3W+1, read_unary; every transition compared with the bit-vector model (value, advance, bit_pos); a failed peek on a strict backend must leave the reader intact (the state continues); plus one long history per zero-extended reader: 140 000 (thorough 3 000 000) 64-bit reads/skips past the end must all see zeros; distinct_nontrivial counts transitions that start in a state reached through at least one earlier operation".into(),
         assumptions: vec!["reference model = canonical layout of C01 (harness/src/model.rs)".into(), "little-endian 64-bit host".into()],
     };
     (meta, out)
@@ -141,8 +142,21 @@ pub fn c07(ctx: &Ctx) -> (CheckMeta, Outcome) {
                     for img in imgs.iter().take(take) {
                         let model = RdModel { bits: Bits::from_bytes(&img.bytes, e), e, zx: backend == "memzx", limit: nbits + 96, tables_ok: diag };
                         let rd = make_reader(e, kind, backend, "", &img.bytes);
-                        let run = RdRun { property: "C07", model: &model, image: &img.bytes, alphabet: &alphabet, max_states: 40_000, check_counter: false };
+                        let run = RdRun { property: "C07", model: &model, image: &img.bytes, alphabet: &alphabet, max_states: 40_000, check_counter: false, max_depth: 0 };
                         out.merge(explore(&run, rd));
+                    }
+                    // byte streams whose length is not a multiple of the word: the partial trailing word is not data
+                    if matches!(backend, "cursor" | "bufreader") && w > 8 {
+                        let img = &imgs[1];
+                        for tl in [1usize, w / 8 - 1] {
+                            let model = RdModel { bits: Bits::from_bytes(&img.bytes, e), e, zx: false, limit: nbits + 96, tables_ok: diag };
+                            let rd = make_reader_tail(e, kind, backend, "", &img.bytes, &vec![0xFF; tl]);
+                            let run = RdRun { property: "C07", model: &model, image: &img.bytes, alphabet: &alphabet, max_states: 40_000, check_counter: false, max_depth: 0 };
+                            out.merge(explore(&run, rd));
+                            if tl == w / 8 - 1 {
+                                break;
+                            }
+                        }
                     }
                     out
                 }));
@@ -154,7 +168,7 @@ pub fn c07(ctx: &Ctx) -> (CheckMeta, Outcome) {
         std_meta(
             "C07",
             "model_checking",
-            "BFS to the fixpoint of the real reader for every (endianness, reader kind, backend in zero-extended/strict memory, vector/slice writer read back, Cursor and BufReader<Cursor> through WordAdapter); alphabet: boundary read_bits/peek/skip, read_unary, every read variant (tables on/off) of 12 codes, io::Read of 0,1,3,8,9,17 bytes, and set_bit_pos(p) for EVERY p in 0..=L from EVERY reachable state; after every transition bit_pos() must equal the model position; a post-seek object that differs from every sequentially reached state is a new state and is expanded with the full alphabet (differential oracle: seek(p) == fresh reader that consumed p bits)",
+            "BFS to the fixpoint of the real reader for every (endianness, reader kind, backend in zero-extended/strict memory, vector/slice writer read back, Cursor and BufReader<Cursor> through WordAdapter, also over byte streams with a partial trailing word); alphabet: boundary read_bits/peek/skip, read_unary, every read variant (tables on/off) of 12 codes, io::Read of 0,1,3,8,9,17 bytes, and set_bit_pos(p) for EVERY p in 0..=L from EVERY reachable state; after every transition bit_pos() must equal the model position; states reached through a reported error (strict backends) are continued by seeks; a post-seek object that differs from every sequentially reached state is a new state and is expanded with the full alphabet (differential oracle: seek(p) == fresh reader that consumed p bits)",
         ),
         out,
     )
@@ -177,6 +191,10 @@ pub fn c09(ctx: &Ctx) -> (CheckMeta, Outcome) {
                     for n in [1u16, 2, 8, 9] {
                         alphabet.push(ROp::IoRead(n));
                     }
+                    // seeks (issued from every state, including states reached through a reported error)
+                    for p in [0u64, 1, 7, 8, 9, 16, 31, 32, 33, 63, 64, 65, 100, 127, 128, 129, 190, 200, 248, 255, 256] {
+                        alphabet.push(ROp::SetPos(p));
+                    }
                     let imgs = images(e, full, seed, false);
                     // image 1 = valid mixed-code stream; image 0 = seeded
                     let which: Vec<usize> = if thorough { vec![1, 0, 2] } else { vec![1] };
@@ -190,8 +208,15 @@ pub fn c09(ctx: &Ctx) -> (CheckMeta, Outcome) {
                             let bytes = &img.bytes[..cut];
                             let model = RdModel { bits: Bits::from_bytes(bytes, e), e, zx: backend == "memzx", limit: cut * 8 + 80, tables_ok: diag };
                             let rd = make_reader(e, kind, backend, "", bytes);
-                            let run = RdRun { property: "C09", model: &model, image: bytes, alphabet: &alphabet, max_states: 40_000, check_counter: false };
+                            let run = RdRun { property: "C09", model: &model, image: bytes, alphabet: &alphabet, max_states: 40_000, check_counter: false, max_depth: 0 };
                             out.merge(explore(&run, rd));
+                            // a partial trailing word after the cut (byte streams only): still not data
+                            if matches!(backend, "cursor" | "bufreader") && w > 8 && (ncuts % 3 == 0) {
+                                let tl = if ncuts % 2 == 0 { 1 } else { w / 8 - 1 };
+                                let rd = make_reader_tail(e, kind, backend, "", bytes, &vec![0xFF; tl]);
+                                let run = RdRun { property: "C09", model: &model, image: bytes, alphabet: &alphabet, max_states: 40_000, check_counter: false, max_depth: 0 };
+                                out.merge(explore(&run, rd));
+                            }
                             cut += wb;
                             ncuts += 1;
                         }
@@ -210,7 +235,7 @@ pub fn c09(ctx: &Ctx) -> (CheckMeta, Outcome) {
         std_meta(
             "C09",
             "fault_enumeration",
-            "a valid mixed-code stream is truncated after EVERY backend word; for every truncation point the reader state space is explored to its fixpoint on strict backends (strict memory reader, vector and slice writers read back, WordAdapter over a truncated Cursor / BufReader) and on the zero-extended reader; the model classifies every (state, operation): needs only bits inside the data => must return Ok with the model value (incl. table-driven reads whose look-ahead passes the end); needs a bit beyond the end => must return Err on strict backends (never a value, never a panic) and the zero-extended value on MemWordReader::new; alphabet: boundary read_bits/peek/skip, unary, all read variants of 12 codes, io::Read; distinct_nontrivial = number of distinct observations",
+            "a valid mixed-code stream is truncated after EVERY backend word; for every truncation point the reader state space is explored to its fixpoint on strict backends (strict memory reader, vector and slice writers read back, WordAdapter over a truncated Cursor / BufReader, also with a partial trailing word of 1 or W/8-1 bytes after the cut) and on the zero-extended reader; the model classifies every (state, operation): needs only bits inside the data => must return Ok with the model value (incl. table-driven reads whose look-ahead passes the end); needs a bit beyond the end => must return Err on strict backends (never a value, never a panic) and the zero-extended value on MemWordReader::new; alphabet: boundary read_bits/peek/skip, unary, all read variants of 12 codes, io::Read, 21 seek targets; a state reached through a reported error is continued by seeks only (the seek must re-establish a defined state whatever the failed operation consumed); distinct_nontrivial = number of distinct observations",
         ),
         out,
     )
@@ -241,7 +266,7 @@ pub fn c12_read(ctx: &Ctx) -> Outcome {
                     for img in imgs.iter().take(if thorough { 4 } else { 1 }) {
                         let model = RdModel { bits: Bits::from_bytes(&img.bytes, e), e, zx: backend == "memzx", limit: nbits + 64, tables_ok: diag };
                         let rd = make_reader(e, kind, backend, "", &img.bytes);
-                        let run = RdRun { property: "C12", model: &model, image: &img.bytes, alphabet: &alphabet, max_states: 40_000, check_counter: false };
+                        let run = RdRun { property: "C12", model: &model, image: &img.bytes, alphabet: &alphabet, max_states: 40_000, check_counter: false, max_depth: 0 };
                         out.merge(explore(&run, rd));
                     }
                     out
@@ -292,7 +317,11 @@ pub fn c08_source(ctx: &Ctx) -> Outcome {
                     let (w, pk) = kind_word(kind);
                     let mut alphabet = reduced_alphabet(w, pk);
                     alphabet.extend(code_ops());
-                    alphabet.extend(copy_ops(w, thorough));
+                    let mut cops = copy_ops(w, thorough);
+                    if !wrapper.is_empty() {
+                        cops.retain(|op| matches!(op, ROp::Copy { wd: 64, .. }));
+                    }
+                    alphabet.extend(cops);
                     if wrapper.is_empty() {
                         // (the counting wrapper's counter is part of its state: with seeks the space would not close)
                         alphabet.push(ROp::SetPos(0));
@@ -305,7 +334,7 @@ pub fn c08_source(ctx: &Ctx) -> Outcome {
                         let img = &imgs[ii];
                         let model = RdModel { bits: Bits::from_bytes(&img.bytes, e), e, zx: backend == "memzx", limit: nbits + 64, tables_ok: diag };
                         let rd = make_reader(e, kind, backend, wrapper, &img.bytes);
-                        let run = RdRun { property: "C08", model: &model, image: &img.bytes, alphabet: &alphabet, max_states: 40_000, check_counter: false };
+                        let run = RdRun { property: "C08", model: &model, image: &img.bytes, alphabet: &alphabet, max_states: 40_000, check_counter: false, max_depth: 0 };
                         out.merge(explore(&run, rd));
                     }
                     out
@@ -323,8 +352,16 @@ pub fn c14_read(ctx: &Ctx) -> Outcome {
     for e in End::BOTH {
         for kind in KINDS {
             for backend in ["memzx", "memstrict"] {
-                for wrapper in ["count", "dbg"] {
+                for wrapper in ["count", "dbg", "count+pre", "count+pre/seeks"] {
                     if !ctx.thorough && wrapper == "dbg" && !(kind == "buf32" || kind == "unbuf") {
+                        continue;
+                    }
+                    // "count+pre": the wrapper is created after 13 bits were consumed; "/seeks": seeks
+                    // through the wrapper (positions checked, histories of at most 3 operations since the
+                    // counter makes the space infinite)
+                    let with_seeks = wrapper.ends_with("/seeks");
+                    let wrapper = if with_seeks { "count+pre" } else { wrapper };
+                    if with_seeks && backend != "memstrict" {
                         continue;
                     }
                     let diag = ctx.diag[kind];
@@ -340,6 +377,11 @@ pub fn c14_read(ctx: &Ctx) -> Outcome {
                                 alphabet.push(ROp::Copy { n, wd: 64, prefill: 3, from });
                             }
                         }
+                        if with_seeks {
+                            for p in [0u64, 7, w as u64 + 3, 100] {
+                                alphabet.push(ROp::SetPos(p));
+                            }
+                        }
                         let imgs = images(e, nbits, seed, thorough);
                         // valid codewords, and long zero runs (unary values of several words)
                         let sel: Vec<usize> = if thorough { vec![1, 2, 0, 3] } else { vec![1, 2] };
@@ -347,13 +389,144 @@ pub fn c14_read(ctx: &Ctx) -> Outcome {
                             let img = &imgs[ii];
                             let model = RdModel { bits: Bits::from_bytes(&img.bytes, e), e, zx: backend == "memzx", limit: nbits + 64, tables_ok: diag };
                             let rd = make_reader(e, kind, backend, wrapper, &img.bytes);
-                            let run = RdRun { property: "C14", model: &model, image: &img.bytes, alphabet: &alphabet, max_states: 40_000, check_counter: true };
+                            let run = RdRun { property: "C14", model: &model, image: &img.bytes, alphabet: &alphabet, max_states: 40_000, check_counter: !with_seeks, max_depth: if with_seeks { 3 } else { 0 } };
                             out.merge(explore(&run, rd));
                         }
                         out
                     }));
                 }
             }
+        }
+    }
+    run_all(tasks, threads())
+}
+
+
+/// C08: long copies (hundreds to a thousand words in one call), outside the reach of the state-space views.
+pub fn c08_long(ctx: &Ctx) -> Outcome {
+    use crate::report::Violation;
+    let mut tasks: Vec<Task> = vec![];
+    for e in End::BOTH {
+        for kind in KINDS {
+            for wd in [8u8, 16, 32, 64, 128] {
+                let seed = ctx.seed;
+                let thorough = ctx.thorough;
+                tasks.push(Box::new(move || {
+                    let mut out = Outcome::new();
+                    let (w, _pk) = kind_word(kind);
+                    let cfg = format!("{}/{}/long-copy/w{}", e.name(), kind, wd);
+                    out.cov.configs.insert(cfg.clone());
+                    let nbits = 1026 * 128 + 1024;
+                    let mut rng = crate::util::Rng::new(seed ^ 0x10C0);
+                    let bytes: Vec<u8> = (0..nbits / 8).map(|_| rng.next() as u8).collect();
+                    let model = RdModel { bits: Bits::from_bytes(&bytes, e), e, zx: true, limit: nbits, tables_ok: [false; 3] };
+                    let base = make_reader(e, kind, "memzx", "", &bytes);
+                    let info = base.info().clone();
+                    let blocks: Vec<usize> = if thorough { vec![63, 64, 65, 127, 128, 129, 255, 256, 257, 511, 512, 513, 1023, 1024, 1025] } else { vec![127, 128, 129, 256, 1024] };
+                    for &b in &blocks {
+                        for unit in [w, wd as usize] {
+                            for r in [0usize, 1, 5, 21, unit - 1] {
+                                let n = b * unit + r;
+                                for prefill in [0u8, 24.min(wd - 1), wd - 1] {
+                                    for k in [0usize, 3] {
+                                        for from in [false, true] {
+                                            if k + n + 64 > nbits {
+                                                continue;
+                                            }
+                                            let mut rd = base.fork();
+                                            if k > 0 {
+                                                rd.apply(&ROp::Skip(k as u16));
+                                            }
+                                            let op = ROp::Copy { n: n as u32, wd, prefill, from };
+                                            let exp = model.expect(&op, k, &info);
+                                            let obs = rd.apply(&op);
+                                            out.cov.transitions += 1;
+                                            out.cov.evaluations += 1;
+                                            out.cov.nontrivial += 1;
+                                            let mut verdict = judge(&exp, &obs, k);
+                                            if let Ok(Some(np)) = verdict {
+                                                // the source must continue correctly
+                                                match rd.bit_pos() {
+                                                    Some(Ok(p)) if p as usize == np => {}
+                                                    other => verdict = Err(("position".into(), format!("after the copy bit_pos is {:?}, expected {}", other, np))),
+                                                }
+                                                if verdict.is_ok() {
+                                                    let want = model.bits.field(np, 37, e, true).unwrap() as u64;
+                                                    let o2 = rd.apply(&ROp::ReadBits(37));
+                                                    if o2 != RObs::Val(want) {
+                                                        verdict = Err(("value".into(), format!("after the copy the next 37 bits read as {:?}, expected {}", o2, want)));
+                                                    }
+                                                }
+                                            }
+                                            if let Err((sym, det)) = verdict {
+                                                if out.violations.len() < 12 {
+                                                    let mut ops = vec![];
+                                                    if k > 0 {
+                                                        ops.push(ROp::Skip(k as u16));
+                                                    }
+                                                    ops.push(op.clone());
+                                                    out.violations.push(Violation {
+                                                        property: "C08".into(),
+                                                        system: "long-copy".into(),
+                                                        config: cfg.clone(),
+                                                        op_class: op.class().into(),
+                                                        symptom: sym,
+                                                        detail: format!("{:?} after skipping {} bits: {}", op, k, det.chars().take(300).collect::<String>()),
+                                                        replay: replay_doc(&info, &model, &bytes, &ops),
+                                                    });
+                                                }
+                                            }
+                                        }
+                                    }
+                                }
+                            }
+                        }
+                    }
+                    out
+                }));
+            }
+        }
+    }
+    run_all(tasks, threads())
+}
+
+/// C02: a zero-extended stream really is followed by (very) many zeros: a long run of reads past the end.
+pub fn c02_long_zero_extension(ctx: &Ctx) -> Outcome {
+    use crate::report::Violation;
+    let mut tasks: Vec<Task> = vec![];
+    for e in End::BOTH {
+        for kind in KINDS {
+            let thorough = ctx.thorough;
+            tasks.push(Box::new(move || {
+                let mut out = Outcome::new();
+                let cfg = format!("{}/{}/memzx/long-run", e.name(), kind);
+                out.cov.configs.insert(cfg.clone());
+                let bytes = vec![0xFFu8; 16];
+                let mut rd = make_reader(e, kind, "memzx", "", &bytes);
+                rd.apply(&ROp::Skip(128));
+                let reads: u64 = if thorough { 3_000_000 } else { 140_000 };
+                let mut pos: u64 = 128;
+                for i in 0..reads {
+                    let op = if i % 3 == 0 { ROp::Skip(64) } else { ROp::ReadBits(64) };
+                    let o = rd.apply(&op);
+                    pos += 64;
+                    out.cov.transitions += 1;
+                    let ok = matches!(o, RObs::Val(0) | RObs::Unit);
+                    if !ok || (i % 4096 == 0 && rd.bit_pos() != Some(Ok(pos))) {
+                        out.violations.push(Violation {
+                            property: "C02".into(),
+                            system: "long-zero-extension".into(),
+                            config: cfg.clone(),
+                            op_class: op.class().into(),
+                            symptom: if matches!(o, RObs::Panic(_)) { "panic".into() } else { "value".into() },
+                            detail: format!("read #{} beyond the end of a zero-extended stream (bit {}): {:?}", i, pos, o),
+                            replay: serde_json::json!({"kind": "none"}),
+                        });
+                        break;
+                    }
+                }
+                out
+            }));
         }
     }
     run_all(tasks, threads())
